@@ -1,7 +1,7 @@
 """C19 - square, file, rank, piece and move text forms round-trip."""
 from analysis.runner import rule
 from analysis.facts import AnchorError
-from analysis import terms as T
+from analysis import terms as T, k2
 from analysis import chessref as R
 
 THOROUGH_CONFIGS = ['release', 'nobmi2', 'movegen-alone']
@@ -341,6 +341,14 @@ ITERS = [("color::AllColorIter", "color::Color", 2), ("side::AllSideIter", "side
 METHODS = [("core::iter::traits::iterator::Iterator", "next", "Iterator"), ("core::iter::traits::iterator::Iterator", "nth", "Iterator"),
            ("core::iter::traits::double_ended::DoubleEndedIterator", "next_back", "DoubleEndedIterator"),
            ("core::iter::traits::double_ended::DoubleEndedIterator", "nth_back", "DoubleEndedIterator")]
+
+
+@rule("C19.R6", "the enumerating iterators override no Iterator method beyond the audited ones")
+def r6(ctx):
+    types = ["chess_bitboard::color::AllColorIter", "chess_bitboard::piece::AllPieceIter", "chess_bitboard::pos::AllFileIter", "chess_bitboard::pos::AllRankIter",
+             "chess_bitboard::side::AllSideIter", "chess_bitboard::pos::AllPosIter", "chess_bitboard::pos::FileIter", "chess_bitboard::pos::RankIter"]
+    new = k2.unaudited_overrides(ctx.P, types)
+    ctx.ob("no unaudited Iterator override", not new, f"an enumerating iterator now overrides {new}: R5 (every audited method forwards to Range<u8>) does not cover it", sample={"types": len(types)})
 
 
 @rule("C19.R5", "enum iterators: range 0..N, every method forwards to the same method of Range<u8>")
